@@ -29,6 +29,7 @@ import (
 	"go/token"
 	"os"
 	"path/filepath"
+	"reflect"
 	"sort"
 	"strconv"
 	"strings"
@@ -95,6 +96,247 @@ func coqString(s string) string {
 }
 
 type reg struct{ version, fn string }
+
+type readDefault struct {
+	typ, member string
+	omitempty   bool
+}
+
+// readDefaults: in every non-test file under flows/, a composite literal &T{F: v, ...} (or T{...}) assigned to a variable
+// that is later, in the same function, handed to a function whose name starts with Unmarshal: each F is a member with a
+// default on read.  T's json tag says whether F is left out when it is zero.
+func readDefaults(repo string) []readDefault {
+	type fieldInfo struct {
+		json      string
+		omitempty bool
+	}
+	structs := map[string]map[string]fieldInfo{} // package dir + "." + type -> field -> info
+	type lit struct {
+		dir, typ string
+		fields   []string
+	}
+	var lits []lit
+	root := filepath.Join(repo, "flows")
+	filepath.WalkDir(root, func(path string, e os.DirEntry, err error) error {
+		if err != nil || e.IsDir() || !strings.HasSuffix(path, ".go") || strings.HasSuffix(path, "_test.go") {
+			return nil
+		}
+		dir := filepath.Dir(path)
+		f := parseFile(path)
+		for _, decl := range f.Decls {
+			switch t := decl.(type) {
+			case *ast.GenDecl:
+				for _, sp := range t.Specs {
+					ts, ok := sp.(*ast.TypeSpec)
+					if !ok {
+						continue
+					}
+					st, ok := ts.Type.(*ast.StructType)
+					if !ok {
+						continue
+					}
+					m := map[string]fieldInfo{}
+					for _, fld := range st.Fields.List {
+						if fld.Tag == nil {
+							continue
+						}
+						tag, err := strconv.Unquote(fld.Tag.Value)
+						if err != nil {
+							continue
+						}
+						parts := strings.Split(reflect.StructTag(tag).Get("json"), ",")
+						info := fieldInfo{json: parts[0]}
+						for _, o := range parts[1:] {
+							if o == "omitempty" {
+								info.omitempty = true
+							}
+						}
+						for _, nm := range fld.Names {
+							m[nm.Name] = info
+						}
+					}
+					structs[dir+"."+ts.Name.Name] = m
+				}
+			case *ast.FuncDecl:
+				if t.Body == nil {
+					continue
+				}
+				// variable -> literal
+				vars := map[string]lit{}
+				ast.Inspect(t.Body, func(n ast.Node) bool {
+					as, ok := n.(*ast.AssignStmt)
+					if !ok || len(as.Lhs) != 1 || len(as.Rhs) != 1 {
+						return true
+					}
+					id, ok := as.Lhs[0].(*ast.Ident)
+					if !ok {
+						return true
+					}
+					rhs := as.Rhs[0]
+					if u, ok := rhs.(*ast.UnaryExpr); ok && u.Op == token.AND {
+						rhs = u.X
+					}
+					cl, ok := rhs.(*ast.CompositeLit)
+					if !ok {
+						return true
+					}
+					tid, ok := cl.Type.(*ast.Ident)
+					if !ok {
+						return true
+					}
+					var fields []string
+					for _, el := range cl.Elts {
+						if kv, ok := el.(*ast.KeyValueExpr); ok {
+							if k, ok := kv.Key.(*ast.Ident); ok {
+								fields = append(fields, k.Name)
+							}
+						}
+					}
+					if len(fields) > 0 {
+						vars[id.Name] = lit{dir, tid.Name, fields}
+					}
+					return true
+				})
+				if len(vars) == 0 {
+					continue
+				}
+				ast.Inspect(t.Body, func(n ast.Node) bool {
+					call, ok := n.(*ast.CallExpr)
+					if !ok {
+						return true
+					}
+					name := ""
+					switch fn := call.Fun.(type) {
+					case *ast.Ident:
+						name = fn.Name
+					case *ast.SelectorExpr:
+						name = fn.Sel.Name
+					}
+					if !strings.HasPrefix(name, "Unmarshal") {
+						return true
+					}
+					for _, a := range call.Args {
+						if u, ok := a.(*ast.UnaryExpr); ok && u.Op == token.AND {
+							a = u.X
+						}
+						if id, ok := a.(*ast.Ident); ok {
+							if l, ok := vars[id.Name]; ok {
+								lits = append(lits, l)
+								delete(vars, id.Name)
+							}
+						}
+					}
+					return true
+				})
+			}
+		}
+		return nil
+	})
+	var out []readDefault
+	for _, l := range lits {
+		st, ok := structs[l.dir+"."+l.typ]
+		if !ok {
+			continue
+		}
+		rel, _ := filepath.Rel(repo, l.dir)
+		for _, f := range l.fields {
+			info, ok := st[f]
+			if !ok || info.json == "" || info.json == "-" {
+				continue
+			}
+			out = append(out, readDefault{rel + "." + l.typ, info.json, info.omitempty})
+		}
+	}
+	sort.Slice(out, func(i, j int) bool { return out[i].typ+"/"+out[i].member < out[j].typ+"/"+out[j].member })
+	return out
+}
+
+// routerTemplateSites: ("routers" | "waits", member) for every template member of routers and waits
+func routerTemplateSites(repo string) [][2]string {
+	var out [][2]string
+	seen := map[[2]string]bool{}
+	add := func(where, member string) {
+		k := [2]string{where, member}
+		if !seen[k] {
+			seen[k] = true
+			out = append(out, k)
+		}
+	}
+	for _, d := range []struct{ dir, where string }{{filepath.Join("flows", "routers"), "routers"}, {filepath.Join("flows", "routers", "waits"), "waits"}} {
+		ents, err := os.ReadDir(filepath.Join(repo, d.dir))
+		if err != nil {
+			fatal("cannot read %s: %v", d.dir, err)
+		}
+		for _, e := range ents {
+			name := e.Name()
+			if e.IsDir() || !strings.HasSuffix(name, ".go") || strings.HasSuffix(name, "_test.go") {
+				continue
+			}
+			f := parseFile(filepath.Join(repo, d.dir, name))
+			for _, decl := range f.Decls {
+				switch t := decl.(type) {
+				case *ast.FuncDecl:
+					if t.Name.Name != "EnumerateTemplates" || t.Recv == nil || len(t.Recv.List) != 1 || len(t.Recv.List[0].Names) != 1 || t.Body == nil {
+						continue
+					}
+					recv := t.Recv.List[0].Names[0].Name
+					ast.Inspect(t.Body, func(n ast.Node) bool {
+						call, ok := n.(*ast.CallExpr)
+						if !ok {
+							return true
+						}
+						if id, ok := call.Fun.(*ast.Ident); !ok || id.Name != "include" || len(call.Args) != 2 {
+							return true
+						}
+						sel, ok := call.Args[1].(*ast.SelectorExpr)
+						if !ok {
+							fatal("%s/%s: include(..) in EnumerateTemplates with an argument that is not <receiver>.<field>", d.dir, name)
+						}
+						if x, ok := sel.X.(*ast.Ident); !ok || x.Name != recv {
+							fatal("%s/%s: include(..) in EnumerateTemplates with an argument that is not <receiver>.<field>", d.dir, name)
+						}
+						add(d.where, strings.ToLower(sel.Sel.Name))
+						return true
+					})
+				case *ast.GenDecl:
+					for _, sp := range t.Specs {
+						ts, ok := sp.(*ast.TypeSpec)
+						if !ok {
+							continue
+						}
+						st, ok := ts.Type.(*ast.StructType)
+						if !ok {
+							continue
+						}
+						for _, fld := range st.Fields.List {
+							if fld.Tag == nil {
+								continue
+							}
+							tag, err := strconv.Unquote(fld.Tag.Value)
+							if err != nil {
+								continue
+							}
+							stag := reflect.StructTag(tag)
+							if !strings.Contains(stag.Get("engine"), "evaluated") {
+								continue
+							}
+							js := strings.Split(stag.Get("json"), ",")[0]
+							if js == "" {
+								fatal("%s/%s: evaluated field of %s without a json name", d.dir, name, ts.Name.Name)
+							}
+							add(d.where, js)
+						}
+					}
+				}
+			}
+		}
+	}
+	if len(out) == 0 {
+		fatal("no template member found in flows/routers")
+	}
+	sort.Slice(out, func(i, j int) bool { return out[i][0]+"/"+out[i][1] < out[j][0]+"/"+out[j][1] })
+	return out
+}
 
 func main() {
 	repo := flag.String("repo", "/repo", "goflow working tree")
@@ -256,6 +498,34 @@ func main() {
 	fmt.Fprintf(&b, "(* the catalog Migrate13_3 passes to RewriteTemplates: specdata/templates.json[%q] *)\n", catalogVersion)
 	fmt.Fprintf(&b, "Definition catalog_actions : list (string * list string) := %s.\n\n", actionsTab)
 	fmt.Fprintf(&b, "Definition catalog_routers : list (string * list string) := %s.\n", routersTab)
+
+	// census of the template members of routers and waits, from the code
+	sites := routerTemplateSites(*repo)
+	b.WriteString("\n(* template members of routers (flows/routers) and waits (flows/routers/waits): every <receiver>.<field> handed to\n" +
+		"   include(..) in an EnumerateTemplates method, and every struct field tagged engine:\"..evaluated..\" (by its json name) *)\n")
+	b.WriteString("Definition router_template_members : list (string * string) := [\n")
+	for i, st := range sites {
+		sep := ";"
+		if i == len(sites)-1 {
+			sep = ""
+		}
+		fmt.Fprintf(&b, "  (%s, %s)%s\n", coqString(st[0]), coqString(st[1]), sep)
+	}
+	b.WriteString("].\n")
+
+	// census of members with a default on read
+	defs := readDefaults(*repo)
+	b.WriteString("\n(* members that get a default before a definition is unmarshalled into their struct (flows/**: `e := &T{F: v, ..}`\n" +
+		"   followed by an Unmarshal.. of e in the same function): struct, member (json name), marshalled with omitempty? *)\n")
+	b.WriteString("Definition read_defaults : list (string * string * bool) := [\n")
+	for i, d := range defs {
+		sep := ";"
+		if i == len(defs)-1 {
+			sep = ""
+		}
+		fmt.Fprintf(&b, "  (%s, %s, %v)%s\n", coqString(d.typ), coqString(d.member), d.omitempty, sep)
+	}
+	b.WriteString("].\n")
 
 	path := filepath.Join(*out, "MigrationTable.v")
 	if old, err := os.ReadFile(path); err == nil && bytes.Equal(old, b.Bytes()) {
